@@ -22,6 +22,23 @@ def programs(tier, b, r):
         ra, rb = B.opnd(da), B.opnd(db)
         B.add({"op": "bin", "name": op, "a": ra, "b": rb, "tag": "main"})
         progs.append(B.build())
+    # the resolution is a module global the user may change between operations: the same float constants and the same kinds of
+    # operands are used before and after a change (r -> r+1 -> r); operands are created at the resolution in force
+    for op in ("add", "mul", "lt", "sub"):
+        for n in (reps[1], reps[-2]):
+            for kb in ("f", "F"):
+                steps = []
+                reg = 0
+                for rr in (r, r + 1, r):
+                    steps.append({"op": "set", "what": "resolution", "v": rr}); reg += 1
+                    steps.append({"op": "new", "kind": "priv", "ty": "fxp", "v": {"f": [n, R]}}); a = reg; reg += 1
+                    if kb == "F":
+                        steps.append({"op": "new", "kind": "priv", "ty": "fxp", "v": {"f": [3, R]}}); bref = {"r": reg}; reg += 1
+                    else:
+                        bref = {"f": [3, R]}
+                    steps.append({"op": "bin", "name": op, "a": {"r": a}, "b": bref, "tag": "main"}); reg += 1
+                progs.append({"id": "r%d/reschange/%s/F%s/%d" % (r, op, kb, n), "ign": False, "steps": steps, "cfg": {},
+                              "meta": {"op": "reschange_" + op, "kinds": "F" + kb, "mode": "plain", "npre": 0, "ng": 0, "nbody": len(steps), "style": "lc"}})
     for op in OPS:
         for x in fvals:
             for y in (fvals if tier != "quick" else fvals[::2]):
